@@ -23,14 +23,14 @@ impl Monitor for C07 {
         vec![
             "rejected frames are inserted only where twin A's window is silent (async: one rx_single result per window; nb: the window stays open, A's own frame may follow)".into(),
             "an oversized frame may end the current receive procedure as a time-out: for it only the response and all later transactions are compared, the rest of the current transaction may be missing".into(),
-            "frames with a foreign DevAddr but the device's own NwkSKey are not generated; a frame with an uplink MType is not a downlink and counts as rejected".into(),
+            "a frame whose DevAddr is not the session's is addressed to someone else and counts as rejected, also when its MIC would verify under this session's key; a frame with an uplink MType is not a downlink and counts as rejected".into(),
         ]
     }
     fn required_events(&self, tier: Tier) -> Vec<&'static str> {
         if tier == Tier::Sanitizer {
             vec!["twins_compared"]
         } else {
-            vec!["twins_compared", "inserted_random", "inserted_bitflip", "inserted_replay", "inserted_other_session", "inserted_oversize", "inserted_reflected_uplink", "inserted_classc", "pending_sticky", "pending_ack", "pending_adr", "join_twins_compared", "nb_noupdate_seen"]
+            vec!["twins_compared", "inserted_random", "inserted_bitflip", "inserted_replay", "inserted_other_session", "inserted_other_addr", "inserted_oversize", "inserted_reflected_uplink", "inserted_classc", "pending_sticky", "pending_ack", "pending_adr", "join_twins_compared", "nb_noupdate_seen"]
         }
     }
 
@@ -63,6 +63,9 @@ enum RK {
     Random,
     BitFlip,
     OtherSession,
+    /// addressed to someone else: a frame that is authentic under this session's keys but carries
+    /// another device address (the network's frame for a neighbour, were the keys shared)
+    OtherAddr,
     Replay,
     Stale,
     FarFuture,
@@ -75,7 +78,7 @@ enum RK {
     ExactMaxBadMic,
 }
 
-const RKS: [RK; 11] = [RK::Random, RK::BitFlip, RK::OtherSession, RK::Replay, RK::Stale, RK::FarFuture, RK::Reflected, RK::JoinAcceptWhileJoined, RK::Oversize, RK::Truncated, RK::ExactMaxBadMic];
+const RKS: [RK; 12] = [RK::Random, RK::BitFlip, RK::OtherSession, RK::OtherAddr, RK::Replay, RK::Stale, RK::FarFuture, RK::Reflected, RK::JoinAcceptWhileJoined, RK::Oversize, RK::Truncated, RK::ExactMaxBadMic];
 
 struct Step {
     data: Vec<u8>,
@@ -98,6 +101,10 @@ fn ref_rejected(net: &Net, last: Option<u32>, frame: &[u8]) -> bool {
         Err(_) => true,
         Ok(v) => {
             if v.uplink() {
+                return true;
+            }
+            // addressed to someone else
+            if v.dev_addr != net.addr {
                 return true;
             }
             match crate::c05::ref_next(last, v.fcnt16) {
@@ -234,6 +241,10 @@ fn data_twins(front: Front, reg: Reg, flip_bit: Option<usize>, rng: &mut Prng, c
                 v[bit / 8] ^= 1 << (bit % 8);
                 v
             }
+            RK::OtherAddr => {
+                let other = Net { nwk: net.nwk, app: net.app, addr: net.addr ^ (1 << rng.below(32)) };
+                other.downlink(&Down { fcnt: n_auth + 1, port: Some(3), payload: &[3, 3], confirmed: rng.bool(), f_opts: &dev_status_req(), ..Default::default() })
+            }
             RK::OtherSession => {
                 let other = Net { nwk: rng.arr(), app: rng.arr(), addr: rng.next_u32() };
                 other.downlink(&Down { fcnt: n_auth + 1, port: Some(1), payload: &[1], ..Default::default() })
@@ -345,6 +356,7 @@ fn data_twins(front: Front, reg: Reg, flip_bit: Option<usize>, rng: &mut Prng, c
             RK::BitFlip => "inserted_bitflip",
             RK::Replay | RK::Stale | RK::FarFuture => "inserted_replay",
             RK::OtherSession | RK::JoinAcceptWhileJoined => "inserted_other_session",
+            RK::OtherAddr => "inserted_other_addr",
             RK::Oversize => "inserted_oversize",
             RK::Reflected => "inserted_reflected_uplink",
         });
